@@ -27,6 +27,15 @@ import difflib
 from pathlib import Path
 
 
+try:
+    from translate import normalize as nz
+except ImportError:  # run as a script
+    import sys as _sys
+
+    _sys.path.insert(0, str(Path(__file__).resolve().parent.parent))
+    from translate import normalize as nz
+
+
 class Unsupported(Exception):
     pass
 
@@ -485,8 +494,103 @@ def eval_cond(node, env):
     bail(node, "unsupported join condition")
 
 
+# ---- canonical form of join's index section --------------------------------------------------
+# The reference shape builds the two index dictionaries with four comprehensions under
+# `if tri1.is_incremental: ... else: ...`.  A maintainer may write the same thing with the key chosen once
+# (`key = f_inc if tri1.is_incremental else f_cum; tri1_cells = {key(cell): cell for cell in tri1}; ...`),
+# with helpers, or with temporaries.  Instead of counting comprehensions the section is EVALUATED under both
+# outcomes of the incremental test: conditionals on the test are resolved, straight-line temporaries are
+# substituted, one-expression module-level helpers are inlined (translate/normalize.py), and the resulting
+# `(target, {key: value for var in operand})` assignments are written back in the reference shape.  The
+# ordinary translation (and its skeleton comparison) then runs on that.  Nothing is guessed: any statement
+# the evaluation does not understand leaves the function as it is, and the translator fails closed as before.
+def _is_inc_test(e):
+    return (isinstance(e, ast.Attribute) and e.attr == "is_incremental" and isinstance(e.value, ast.Name))
+
+
+class _ResolveIfExp(ast.NodeTransformer):
+    def __init__(self, test_src, assume):
+        self.test_src, self.assume = test_src, assume
+
+    def visit_IfExp(self, n):
+        n = self.generic_visit(n)
+        if _is_inc_test(n.test) and src(n.test) == self.test_src:
+            return n.body if self.assume else n.orelse
+        return n
+
+
+def _specialise(stmts, test_src, assume, env, out, module_funcs):
+
+    for st in stmts:
+        if isinstance(st, ast.If):
+            if not (_is_inc_test(st.test) and src(st.test) == test_src):
+                raise nz.NotReducible("conditional on something else inside the index section")
+            _specialise(st.body if assume else st.orelse, test_src, assume, env, out, module_funcs)
+            continue
+        if not (isinstance(st, ast.Assign) and len(st.targets) == 1 and isinstance(st.targets[0], ast.Name)):
+            raise nz.NotReducible(f"statement kind {type(st).__name__} inside the index section")
+        name = st.targets[0].id
+        v = _ResolveIfExp(test_src, assume).visit(copy.deepcopy(st.value))
+        nz.check_pure(v)
+        v = nz.subst(v, env)
+        if isinstance(v, ast.DictComp):
+            for _ in range(4):
+                tr = nz._Inline(module_funcs, {}, None, 4)
+                v = tr.visit(v)
+                if not tr.changed:
+                    break
+            ast.fix_missing_locations(v)
+            out.append((name, v))
+            env.pop(name, None)
+        else:
+            if any(isinstance(n, (ast.DictComp, ast.ListComp, ast.SetComp, ast.GeneratorExp, ast.Call)) for n in ast.walk(v)):
+                raise nz.NotReducible("a temporary of the index section is not a plain name / attribute / conditional")
+            env[name] = v
+
+
+def canonical_join(fn, module):
+    """join with its index section rewritten to the reference shape, or `fn` itself when the section is
+    already in that shape / cannot be evaluated."""
+
+    body = list(fn.body)
+    has_comp = [i for i, st in enumerate(body) if any(isinstance(n, ast.DictComp) for n in ast.walk(st))]
+    has_test = [i for i, st in enumerate(body) if any(_is_inc_test(n) for n in ast.walk(st))]
+    if not has_comp or not has_test:
+        return fn
+    lo, hi = min(has_comp + has_test), max(has_comp)
+    tests = {src(n) for st in body[lo:hi + 1] for n in ast.walk(st) if _is_inc_test(n)}
+    if len(tests) != 1:
+        return fn
+    test_src = tests.pop()
+    module_funcs = {n.name: n for n in module.body if isinstance(n, ast.FunctionDef) and n.name != fn.name}
+    try:
+        res = {}
+        for assume in (True, False):
+            env, out = {}, []
+            _specialise(body[lo:hi + 1], test_src, assume, env, out, module_funcs)
+            res[assume] = (out, set(env))
+    except nz.NotReducible:
+        return fn
+    (inc, tmp1), (cum, tmp2) = res[True], res[False]
+    if [n for n, _ in inc] != [n for n, _ in cum] or len(inc) != 2 or len({n for n, _ in inc}) != 2:
+        return fn
+    # temporaries of the section must be dead afterwards
+    later = {n.id for st in body[hi + 1:] for n in ast.walk(st) if isinstance(n, ast.Name) and isinstance(n.ctx, ast.Load)}
+    if (tmp1 | tmp2) & later:
+        return fn
+    test = ast.parse(test_src, mode="eval").body
+    mk = lambda pairs: [ast.Assign(targets=[ast.Name(id=n, ctx=ast.Store())], value=v) for n, v in pairs]   # noqa: E731
+    new_if = ast.If(test=test, body=mk(inc), orelse=mk(cum))
+    fn2 = copy.deepcopy(fn)
+    fn2.body = body[:lo] + [new_if] + body[hi + 1:]
+    ast.fix_missing_locations(fn2)
+    # re-parse so that line/column information (used to order the comprehensions) is consistent
+    mod2 = ast.parse(ast.unparse(fn2))
+    return mod2.body[0]
+
+
 def translate_join(tree):
-    fn = find_def(tree, "join")
+    fn = canonical_join(find_def(tree, "join"), tree)
     nodes = _join_nodes(fn)
     k = nodes[:4]
     dcs = sorted([n for n in ast.walk(fn) if isinstance(n, ast.DictComp)], key=lambda n: (n.lineno, n.col_offset))
